@@ -100,6 +100,8 @@ pub enum Mode {
     File,
     StdinFile,
     StdinPipe,
+    /// the script is a file operand naming a FIFO that a writer fills in chunks
+    FileFifo,
 }
 
 #[derive(Clone, Debug, PartialEq, Eq, Hash, Serialize, Deserialize)]
@@ -515,7 +517,7 @@ fn run_mode(c: &InputCase, mode: Mode, b: &Built) -> Result<(), String> {
             s.stdin = Some(fed_bytes(&b.text, true));
             s
         }
-        Mode::StdinPipe => {
+        Mode::StdinPipe | Mode::FileFifo => {
             let mut s = vsys::Setup::script("");
             s.argv = vec!["yash".into()];
             let fed = fed_bytes(&b.text, true);
@@ -530,8 +532,14 @@ fn run_mode(c: &InputCase, mode: Mode, b: &Built) -> Result<(), String> {
                 i = end;
                 k += 1;
             }
-            s.stdin_pipe = Some(chunks);
-            s.stdin_nonblock = c.nonblock;
+            if mode == Mode::FileFifo {
+                s.argv = vec!["yash".into(), "/work/script.fifo".into()];
+                s.files.push(("script.fifo".into(), FileSpec::Fifo { mode: 0o644 }));
+                s.fifo_feed = Some(("/work/script.fifo".into(), chunks));
+            } else {
+                s.stdin_pipe = Some(chunks);
+                s.stdin_nonblock = c.nonblock;
+            }
             if let Some(seed) = c.sched {
                 s.chooser = Chooser::Seeded(seed);
                 s.preempt = true;
@@ -582,7 +590,7 @@ fn check_input(c: &InputCase) -> Outcome {
     // string/file modes: the read-free rendering; stdin modes: reads consume script lines
     let plain = build(c, false);
     let stdin = build(c, true);
-    for (mode, b) in [(Mode::CString, &plain), (Mode::File, &plain), (Mode::StdinFile, &stdin), (Mode::StdinPipe, &stdin)] {
+    for (mode, b) in [(Mode::CString, &plain), (Mode::File, &plain), (Mode::StdinFile, &stdin), (Mode::StdinPipe, &stdin), (Mode::FileFifo, &plain)] {
         if let Err(e) = run_mode(c, mode, b) {
             return Outcome::fail(e);
         }
